@@ -329,13 +329,17 @@ class Interp:
                         if isinstance(e, Cpp) and e.kind == "nonStd":
                             raise                               # not a std::exception: no clause can see it
                         exc = e.box if isinstance(e, Thrown) else Box(("exc",), True)
+                        # the C++ class of a C++ exception: exception > runtime_error > eval_error; exception > logic_error > out_of_range
+                        kind = None if isinstance(e, Thrown) else ("evalError" if isinstance(e, EvalError) else e.kind)
+                        classes = {None: (), "evalError": ("exception", "runtime_error", "eval_error"), "runtimeError": ("exception", "runtime_error"),
+                                   "outOfRange": ("exception", "logic_error", "out_of_range"), "stdException": ("exception", "logic_error")}[kind]
                         for c in catches:
                             if len(c) == 2:                     # catch { ... }
                                 r = self.block_in_scope(c[1], None, None)
                                 break
                             ty = c[2] if len(c) == 4 else None
                             if ty is None or (ty == "int" and type(exc.v) is int) or (ty == "bool" and type(exc.v) is bool) \
-                                    or (ty == "string" and type(exc.v) is str):
+                                    or (ty == "string" and type(exc.v) is str) or ty in classes:
                                 r = self.block_in_scope(c[-1], c[1], exc)
                                 break
                         else:
